@@ -24,6 +24,7 @@ class AssemblyPermutation:
     class, labelled opaque blocks with the relation the class's block routine satisfies)"""
 
     fp = True  # cross-check: the same contract on the unmodified float64 code at sampled inputs (bounded)
+    fp_nsamp = (1, 3)
 
     def fp_shapes(self, tier):
         sh = self.shapes(tier)
@@ -89,6 +90,7 @@ class BlockOrientation:
     conjugate (momentum-type operators): two separate runs of the real block routine compared with each other"""
 
     fp = True  # cross-check: the same contract on the unmodified float64 code at sampled inputs (bounded)
+    fp_nsamp = (1, 3)
 
     def fp_shapes(self, tier):
         sh = self.shapes(tier)
